@@ -17,39 +17,34 @@ Section C12.
   Notation run_hist := (run_hist matchb H Hx).
   Notation observe := (observe matchb H Hx).
 
-  (* a check that is dry, or made by the record-after-success variant, writes nothing *)
-  Lemma check_sources_quiet : forall v dry now s t,
-    dry || v_safe v = true -> snd (check_sources v dry now s t) = s.
+  (* a dry check writes nothing *)
+  Lemma check_sources_quiet : forall v now s t,
+    snd (check_sources v true now s t) = s.
   Proof.
-    intros v dry now s t Hq.
-    assert (Hw : forall b, negb dry && b && negb (v_safe v) = false).
-    { intros b. destruct dry, (v_safe v); cbn in *; try discriminate; auto; now rewrite andb_false_r. }
-    assert (Hw2 : negb dry && negb (v_safe v) = false).
-    { destruct dry, (v_safe v); cbn in *; try discriminate; auto. }
+    intros v now s t.
     unfold Model.check_sources. destruct (t_method t); auto.
-    - unfold check_checksum. cbn. now rewrite Hw.
-    - destruct (v_ts_exact v).
-      + unfold check_timestamp_exact. cbn. now rewrite Hw.
-      + unfold check_timestamp. rewrite Hw2.
-        destruct (lookup (ts_key t) (tss s)); [reflexivity|].
-        now destruct (is_nil _).
+    destruct (v_ts_exact v); auto.
+    unfold check_timestamp. cbn [negb].
+    destruct (lookup (ts_key t) (tss s)); [reflexivity|].
+    now destruct (is_nil _).
   Qed.
 
-  Lemma uptodate_quiet : forall v dry now s t,
-    dry || v_safe v = true -> snd (uptodate v dry now s t) = s.
+  Lemma uptodate_quiet : forall v now s t,
+    snd (uptodate v true now s t) = s.
   Proof.
-    intros v dry now s t Hq. unfold Model.uptodate.
+    intros v now s t. unfold Model.uptodate.
     destruct (negb (is_nil (t_sources t))).
-    - pose proof (check_sources_quiet v dry now s t Hq) as E.
-      destruct (check_sources v dry now s t) as [b s']. cbn in *. now subst.
+    - pose proof (check_sources_quiet v now s t) as E.
+      destruct (check_sources v true now s t) as [b s']. cbn in *. now subst.
     - reflexivity.
   Qed.
 
   Lemma list_json_quiet : forall v now p s,
-    v_listjson_dry v || v_safe v = true -> list_json matchb H Hx v now s p = s.
+    v_listjson_dry v = true -> list_json matchb H Hx v now s p = s.
   Proof.
-    intros v now p; induction p as [|t p IH]; intros s Hq; cbn; auto.
-    rewrite uptodate_quiet by auto. now apply IH.
+    intros v now p s Hq. unfold list_json. rewrite Hq. revert s.
+    induction p as [|t p IH]; intros s; cbn; auto.
+    rewrite uptodate_quiet. apply IH.
   Qed.
 
   Lemma mkdir_empty : forall s, mkdir s "" = s.
@@ -58,7 +53,7 @@ Section C12.
   (* when is a read-only invocation pure in variant v *)
   Definition pure_cond (v : variant) (p : project) (m : mode) (tid : nat) : bool :=
     match m with
-    | ListJson => v_listjson_dry v || v_safe v
+    | ListJson => v_listjson_dry v
     | Dry => match nth_error p tid with
              | Some t => String.eqb (t_dir t) "" || v_dry_mkdir_guard v
              | None => true
@@ -74,8 +69,8 @@ Section C12.
     intros v p now s m tid o Hro Hp. destruct m; cbn in Hro; try discriminate; cbn in Hp |- *.
     - (* Dry *)
       destruct (nth_error p tid) as [t|]; [|reflexivity].
-      unfold run_task.
-      pose proof (uptodate_quiet v true now s t eq_refl) as E.
+      unfold run_task. cbn [orb].
+      pose proof (uptodate_quiet v now s t) as E.
       destruct (uptodate v true now s t) as [up s1]. cbn in E. subst s1.
       destruct up; [reflexivity|].
       rewrite andb_false_r. cbn [negb andb]. rewrite andb_false_r. cbn [andb].
@@ -83,7 +78,7 @@ Section C12.
       rewrite orb_false_r in Hp. apply String.eqb_eq in Hp. rewrite Hp. reflexivity.
     - (* Status *)
       destruct (nth_error p tid) as [t|]; [|reflexivity].
-      pose proof (uptodate_quiet v true now s t eq_refl) as E.
+      pose proof (uptodate_quiet v now s t) as E.
       destruct (uptodate v true now s t) as [up s1]. cbn in *. now subst.
     - (* ListJson *) now apply list_json_quiet.
     - reflexivity.
@@ -118,7 +113,7 @@ Section C12.
   Qed.
 
   Definition pure_variant (v : variant) : bool :=
-    v_dry_mkdir_guard v && (v_listjson_dry v || v_safe v).
+    v_dry_mkdir_guard v && v_listjson_dry v.
 
   Lemma pure_variant_all : forall v p h, pure_variant v = true -> forallb (ev_pure v p) h = true.
   Proof.
